@@ -253,17 +253,19 @@ func mapDynamoToTypesSliceItem(input []dynamodbtypes.AttributeValue) []*types.It
 func mapDynamoToTypesItem(item dynamodbtypes.AttributeValue) *types.Item {
 	itemB, ok := item.(*dynamodbtypes.AttributeValueMemberB)
 	if ok {
-		return &types.Item{B: itemB.Value}
+		return &types.Item{B: copyBytes(itemB.Value)}
 	}
 
 	itemBOOL, ok := item.(*dynamodbtypes.AttributeValueMemberBOOL)
 	if ok {
-		return &types.Item{BOOL: &itemBOOL.Value}
+		value := itemBOOL.Value
+
+		return &types.Item{BOOL: &value}
 	}
 
 	itemBS, ok := item.(*dynamodbtypes.AttributeValueMemberBS)
 	if ok {
-		return &types.Item{BS: itemBS.Value}
+		return &types.Item{BS: copyBytesSlice(itemBS.Value)}
 	}
 
 	itemS, ok := item.(*dynamodbtypes.AttributeValueMemberS)
@@ -544,7 +546,7 @@ func mapTypesToDynamoLocalSecondaryIndexes(input []types.LocalSecondaryIndexDesc
 func mapTypesToDynamoItem(item *types.Item) dynamodbtypes.AttributeValue {
 	if len(item.B) != 0 {
 		return &dynamodbtypes.AttributeValueMemberB{
-			Value: item.B,
+			Value: copyBytes(item.B),
 		}
 	}
 
@@ -556,7 +558,7 @@ func mapTypesToDynamoItem(item *types.Item) dynamodbtypes.AttributeValue {
 
 	if len(item.BS) != 0 {
 		return &dynamodbtypes.AttributeValueMemberBS{
-			Value: item.BS,
+			Value: copyBytesSlice(item.BS),
 		}
 	}
 
@@ -629,6 +631,32 @@ func mapTypesToDynamoSliceMapItem(input []map[string]*types.Item) []map[string]d
 	}
 
 	return output
+}
+
+// byte slices that cross the client boundary are copied: what the table stores shares no memory with the caller
+
+func copyBytes(b []byte) []byte {
+	if b == nil {
+		return nil
+	}
+
+	c := make([]byte, len(b))
+	copy(c, b)
+
+	return c
+}
+
+func copyBytesSlice(bs [][]byte) [][]byte {
+	if bs == nil {
+		return nil
+	}
+
+	c := make([][]byte, len(bs))
+	for i, b := range bs {
+		c[i] = copyBytes(b)
+	}
+
+	return c
 }
 
 func toStringSlice(slice []string) []*string {
